@@ -26,7 +26,7 @@
 #include <utf8proc.h>
 
 #define PAGE 4096
-#define MAXLINE (1 << 16)
+#define MAXLINE (1 << 20)
 #define NSLOTS 16
 #define MAXBLOCKS (1 << 20)
 
